@@ -37,7 +37,8 @@ COMPS = ("live", "def", "maybe", "live_nd")
 # Known-finding input classes this check can leave out *by construction* so that the search goes
 # on behind them (AUTHORING requirement 1 / DESIGN 3).  An exclusion is only active when
 # known_findings.json lists its key for C09 (or VERIF_C09_EXCLUDE=<key,...|all> forces it, used
-# for sensitivity runs); replay() and the known-finding probes never apply exclusions.
+# for sensitivity runs).  The known-finding probes are replayed without any exclusion; a recorded
+# violation carries the exclusions that were active ("exclusions") and is replayed with them.
 EXCLUDE = {
     # analysis.py re-queues only `bb.predecessors` / `bb.successors` after a change although the
     # join also reads dummy neighbours.  Excluded class: schedules in which a block is not
@@ -112,11 +113,15 @@ def _make_sched_set():
 
 
 def install_injection():
+    """inject the schedule-controlled `set` and verify (once) that it really decides the pop order;
+    otherwise STATE["unused"] is set and every case runs once in the interpreter's own order"""
     if not STATE["installed"]:
         from guppylang_internals.cfg import analysis
 
         analysis.set = _make_sched_set()
         STATE["installed"] = True
+        ok, note = injection_selftest()
+        STATE["unused"], STATE["note"] = not ok, note
 
 
 def compile_sched(sched, n):
@@ -485,7 +490,9 @@ def run_impl(cfg, g, sched):
     n = g.n
     STATE["sched"] = compile_sched(sched, n)
     STATE["pops"] = 0
-    STATE["limit"] = 4000 + 200 * n * (len(g.vars) + 2)
+    # a terminating monotone worklist run changes each block's value <= 2*|vars| times and re-queues
+    # <= n blocks per change; three analyses run per call.  Anything beyond is a livelock.
+    STATE["limit"] = 200 + 12 * n * n * (len(g.vars) + 1)
     try:
         cfg.analyze(set(g.def_before), set(g.maybe_before), sorted(g.inout))
         bbs = cfg.bbs
@@ -536,51 +543,62 @@ def draw_schedules(rnd, n, small):
 
 # ---- diagnosis: root-cause signature of a mismatch (bucket naming only, never the verdict) ----
 def _local_inconsistent(g, comp, val, x):
-    """blocks whose value for x is not what their neighbours' values imply"""
+    """blocks whose value for x is not what their neighbours' values imply, each with a flag:
+    could the value be explained by out-of-date contributions of *dummy* neighbours alone?"""
     n = g.n
     bad = []
     if comp in ("live", "live_nd"):
         dummy = comp == "live"
         for b in range(n):
-            succs = g.succ[b] + (g.dsucc[b] if dummy else [])
             used = x in g.used[b] or (dummy and b == EXIT and x in g.inout)
-            want = used or (x not in g.assigned[b] and any(x in val[s] for s in succs))
-            if want != (x in val[b]):
-                bad.append(b)
+            keep = x not in g.assigned[b]
+            real = any(x in val[s] for s in g.succ[b])
+            dum = [x in val[s] for s in g.dsucc[b]] if dummy else []
+            got = x in val[b]
+            if (used or (keep and (real or any(dum)))) != got:
+                lo, hi = used or (keep and real), used or (keep and (real or bool(dum)))
+                bad.append((b, bool(dum) and got in (lo, hi)))
     else:
-        preds = [[] for _ in range(n)]
+        rp = [[] for _ in range(n)]
+        dp = [[] for _ in range(n)]
         for s in range(n):
-            for t in g.succ[s] + g.dsucc[s]:
-                preds[t].append(s)
+            for t in g.succ[s]:
+                rp[t].append(s)
+            for t in g.dsucc[s]:
+                dp[t].append(s)
         for b in range(n):
-            if not preds[b]:
-                want = x in g.def_before
+            got = x in val[b]
+            after = lambda p: x in val[p] or x in g.assigned[p]  # noqa: E731
+            if not rp[b] and not dp[b]:
+                if (x in g.def_before) != got:
+                    bad.append((b, False))
             elif comp == "def":
-                want = all(x in val[p] or x in g.assigned[p] for p in preds[b])
+                if all(after(p) for p in rp[b] + dp[b]) != got:
+                    lo, hi = (not dp[b]) and all(after(p) for p in rp[b]), all(after(p) for p in rp[b])
+                    bad.append((b, bool(dp[b]) and got in (lo, hi)))
             else:
-                want = any(x in val[p] or x in g.assigned[p] for p in preds[b])
-            if want != (x in val[b]):
-                bad.append(b)
+                if any(after(p) for p in rp[b] + dp[b]) != got:
+                    lo, hi = any(after(p) for p in rp[b]), bool(dp[b]) or any(after(p) for p in rp[b])
+                    bad.append((b, bool(dp[b]) and got in (lo, hi)))
     return bad
 
 
 def diagnose(g, comp, val, want):
+    """root-cause signature:  <comp>.dummy_stale  the result is not even a solution of the local
+    equations, and only at blocks where out-of-date dummy-neighbour contributions explain it (not
+    used while the C09.dummy_requeue exclusion repairs the schedules);  <comp>.stale  not a solution
+    elsewhere;  <comp>.wrong_fixpoint  a solution of the local equations but not the path-based one"""
     diffs = [(b, x) for b in range(g.n) for x in sorted(val[b] ^ want[b])]
     xs = sorted({x for _, x in diffs})
     if comp == "maybe" and all(x in g.maybe_before and x not in g.def_before for x in xs):
         return "maybe.before_entry_maybe_only", diffs
-    bad = sorted({b for x in xs for b in _local_inconsistent(g, comp, val, x)})
+    bad = [r for x in xs for r in _local_inconsistent(g, comp, val, x)]
     if not bad:
         cause = "wrong_fixpoint"
+    elif all(expl for _, expl in bad) and not STATE["extra_dummy"]:
+        cause = "dummy_stale"
     else:
-        nb = g.dsucc if comp == "live" else None
-        if comp in ("def", "maybe"):
-            dp = [[] for _ in range(g.n)]
-            for s in range(g.n):
-                for t in g.dsucc[s]:
-                    dp[t].append(s)
-            nb = dp
-        cause = "dummy_stale" if nb is not None and all(nb[b] for b in bad) else "stale"
+        cause = "stale"
     return f"{comp}.{cause}", diffs
 
 
@@ -606,12 +624,16 @@ def evaluate(cfg, g, schedules):
     problems = {}
     ev_cache = {}
     pops_total = 0
+    n_bad = 0
     for sched in schedules:
         r = run_impl(cfg, g, sched)
         pops_total += STATE["pops"]
         if r[0] != "ok":
             key = "nontermination" if r[0] == "nonterm" else "crash." + r[1].split(":")[0] + ":" + r[1].split(":")[1]
             problems.setdefault(key, (r[1], sched))
+            n_bad += 1
+            if n_bad >= 3:  # no point in burning the budget on hundreds of livelocked schedules
+                break
             continue
         _, vals, evidence = r
         for c in COMPS:
@@ -687,7 +709,9 @@ def run_case(case, draw_fn=None, perm_cap=720, exclusions=()):
     scheds = all_schedules(g.n, case.get("schedules", []), drawn, perm_cap)
     if STATE.get("unused"):
         scheds = [None]
-    STATE["extra_dummy"] = "C09.dummy_requeue" in exclusions
+    # (the repair needs the injected worklist; without it the excluded class cannot be left out and
+    # its mismatches keep their own bucket name)
+    STATE["extra_dummy"] = "C09.dummy_requeue" in exclusions and not STATE.get("unused")
     try:
         findings, info = evaluate(cfg, g, scheds)
     finally:
@@ -698,7 +722,9 @@ def run_case(case, draw_fn=None, perm_cap=720, exclusions=()):
 
 
 def replay(case):
-    findings, _, _ = run_case(case)
+    # a case recorded while an exclusion repaired the schedules is replayed the same way (so that
+    # it shows its own bucket, not the excluded known finding); probes carry no "exclusions"
+    findings, _, _ = run_case(case, exclusions=case.get("exclusions", ()))
     if not findings:
         return None
     want = case.get("bucket")
@@ -752,9 +778,10 @@ def minimise(case, bucket, budget_s):
     """smallest model (greedy) still showing `bucket`; src cases are first turned into the
     synthetic model of their graph.  returns (case, detail) or None"""
     t_end = time.monotonic() + budget_s
+    excl = case.get("exclusions", ())
 
     def shows(c):
-        fs, _, _ = run_case(c)
+        fs, _, _ = run_case(c, exclusions=excl)
         for b, d, scheds in fs:
             if b == bucket:
                 return d, scheds
@@ -788,6 +815,8 @@ def minimise(case, bucket, budget_s):
                 cur, detail, progress = c2, r[0], True
                 break
     cur["bucket"] = bucket
+    if excl:
+        cur["exclusions"] = list(excl)
     return cur, detail
 
 
@@ -956,7 +985,6 @@ SELFTEST = {"n": 3, "blocks": [{"stmts": [], "pred": None}, {"stmts": [["expr", 
 
 def injection_selftest():
     """does our `set` really decide the pop order?  returns (ok, note)"""
-    install_injection()
     cfg, g = build_cfg(SELFTEST), graph_from_model(SELFTEST)
     traces = []
     for perm in ([0, 1, 2], [2, 1, 0]):
@@ -975,9 +1003,8 @@ def injection_selftest():
 def worker(ctx):
     from hypothesis import strategies as st
 
-    ok, note = injection_selftest()
-    ctx.notes["schedule_injection"] = note
-    STATE["unused"] = not ok
+    install_injection()
+    ctx.notes["schedule_injection"] = STATE["note"]
     excl = active_exclusions()
     ctx.notes["active_exclusions"] = sorted(excl)
     perm_cap = ctx.params.get("perm_cap", 720)
@@ -1027,6 +1054,8 @@ def worker(ctx):
             vc = dict(case)
             vc["schedules"] = [s for s in scheds if s] if (n > 6 or STATE.get("unused")) else []
             vc["bucket"] = bucket
+            if excl:
+                vc["exclusions"] = sorted(excl)
             ctx.violation(bucket, vc, detail)
             size = len(json.dumps(vc))
             if bucket not in recorded or size < recorded[bucket][1]:
@@ -1071,7 +1100,7 @@ SPEC = harness.Spec(
         "priority orders and cyclic pop-index sequences are a subset of all worklist interleavings",
     ],
     shards={"quick": 16, "thorough": 16},
-    budget_s={"quick": 75, "thorough": 600},
+    budget_s={"quick": 90, "thorough": 600},
     params={"quick": {"n": 260, "perm_cap": 720}, "thorough": {"n": 4000, "perm_cap": 720}},
     min_nontrivial=150,
 )
